@@ -25,12 +25,14 @@ REPLAY_ATTEMPTS = 2
 
 STEP = st.tuples(*[st.integers(0, 255)] * 5)
 CASE = st.tuples(st.lists(STEP, min_size=6, max_size=36), st.sampled_from(["mem", "mem", "fs", "afs"]),
-                 st.booleans(), st.sampled_from([1, 4, 8192]), st.lists(st.integers(0, 255), max_size=40))
+                 st.booleans(), st.sampled_from([1, 4, 8192]), st.lists(st.integers(0, 255), max_size=40),
+                 st.integers(0, len(walk.NEUTRAL_SERVER_KW) - 1))
 PROBES = ["epsv", "retr_any", "rnto_fresh", "pwd"]
 
 
 def check(ctx, case):
-    program, backend, ipv6, block, tape = case
+    program, backend, ipv6, block, tape = case[:5]
+    neutral = walk.NEUTRAL_SERVER_KW[case[5]] if len(case) > 5 else {}
     history = walk.concretise(list(program) + PROBES, ipv6=ipv6)
     inter = walk.classify(history)
     verbs = [h["verb"].upper() or "EMPTY" for h in history]
@@ -41,7 +43,7 @@ def check(ctx, case):
         with harness.TempDirs() as td:
             tmp = td.new() if backend != "mem" else None
             out = await walk.execute(loop, history, backend=backend, tmp=tmp, ipv6=ipv6, block_size=block,
-                                     records=recs)
+                                     records=recs, server_kw=dict(neutral))
             await walk.finish(*out[2:])
 
     try:
@@ -51,7 +53,8 @@ def check(ctx, case):
         ctx.count([history], inter >= 2,
                   sample=dict(backend=backend, ipv6=ipv6, block=block, tape=tape[:10],
                               history=[(r["cmd"], r.get("got")) for r in recs]),
-                  classes=["be_" + backend, "ipv6" if ipv6 else "ipv4"] + ["verb_" + v for v in set(verbs)]
+                  classes=["be_" + backend, "ipv6" if ipv6 else "ipv4", "server_options_" + ("+".join(sorted(neutral)) or "default")]
+                  + ["verb_" + v for v in set(verbs)]
                   + ["code_" + c for c in set(codes)] + ["skipped_" + str(s) for s in skipped]
                   + (["has_transfer"] if any(len(r.get("got") or []) == 2 for r in recs) else []))
         ctx.classes["steps"] += len(recs)
